@@ -39,11 +39,13 @@ def fixture_state(root, manifest_dir=None):
     return out
 
 
-def run_scenario(root, scenario, fail=(), workspace=None, manifest_rel=None):
+def run_scenario(root, scenario, fail=(), workspace=None, manifest_rel=None, layout=None, post=None):
     """fail: invocation ordinals that exit 1; an entry "k!" is a *hard* failure of `docker run` k
     (rejected at create time: the container never exists, later logs/exec/port on it fail too).
     -> dict(outcome, message, log=[{n,prog,argv}], tmp_left=[...], fixture_same, path_dirs={path: listing})"""
     make_world(root)
+    if layout:
+        layout(root)
     manifest_dir = os.path.join(root, "crate")
     extra_path = ""
     extra_env = {}
@@ -80,6 +82,8 @@ def run_scenario(root, scenario, fail=(), workspace=None, manifest_rel=None):
     res["log"] = [json.loads(l) for l in open(log)] if os.path.exists(log) else []
     res["tmp_left"] = sorted(os.listdir(os.path.join(root, "tmp")))
     res["fixture_same"] = fixture_state(root, manifest_dir) == FIXTURE_FILES
+    if post:
+        post(root, res)
     return res
 
 
